@@ -86,7 +86,17 @@ def multiline_decorator(rng):
                         "import os\nif 1:\n    @(\n      deco9)\n    def f(): pass\nimport sys\n@ (\n\n deco9 @ 1)\nasync def g(): pass\n"]), [], [])
 
 
+def typecomment_first_use(rng):
+    # a name used only in a type comment is reported with a comment-relative line number (1): no existing block may
+    # take its import, and the new block must still not land in front of a `__future__` import
+    head = rng.choice(["", '"""doc"""\n', "# c\n\n"])
+    return (head + "from __future__ import annotations\n" + rng.choice(["", "import os\nprint(os)\n"])
+            + rng.choice(["def ftc(a):\n    # type: (tcname9) -> None\n    pass\n", "for xtc in []:  # type: tcname9\n    pass\n",
+                          "for xtc in []:  # type: not valid here\n    pass\nprint(tcname9)\n"]),
+            ["from tcpkg import tcname9"], [])
+
+
 SCENARIOS = [two_dotted_uses, import_after_use_same_line, midline_unused, future_and_caps, late_rebinding,
              dotted_prefix_use, del_then_use, header_doc, doctest_import, shadowing_param,
              lambda_then_late_import, bad_doctest, del_then_use_other_import, type_comment_lookalikes,
-             multiline_decorator]
+             multiline_decorator, typecomment_first_use]
